@@ -40,7 +40,9 @@ def random_grammar(r):
     k = r.random()
     if k < 0.04:
         return common.permuted_pairs_grammar(r)
-    if k < 0.14:
+    if k < 0.10:
+        return common.dag_grammar(r)
+    if k < 0.20:
         # top-level only: inside a word the family can juxtapose literals within a group, which the pinned
         # compiler rejects (finding KF-I, owned by C08); callers of random_grammar expect accepted grammars
         return common.loopy_grammar(r, inword=False)
